@@ -117,7 +117,7 @@ func scanLabels(p *symbolScanner) scanStateFn {
 		}
 		p.labelBuf = append(p.labelBuf, p.nextToken.val)
 		return p.consume(scanLabels)
-	case tokComment:
+	case tokComment, tokColon:
 		fallthrough
 	case tokNewline:
 		return p.consume(scanLabels)
